@@ -157,6 +157,12 @@ package memberlist
 // State functions (C01, C02, C06, C07, C08)
 // ---------------------------------------------------------------------
 
+//@ ghost $armedAt time.Time     // suspectNode: the StateChange the suspicion timer is armed for
+//@ ghost $seenHas bool
+//@ ghost $seenState NodeStateType
+//@ ghost $seenChange time.Time
+//@ ghost $seenInc uint32
+//@ ghost $seenName string
 //@ func (*Memberlist).suspectNode(m, s)
 //@   safety [C13,C20]
 //@   monitor Memberlist.nodeLock
@@ -177,6 +183,15 @@ package memberlist
 //@                  m.nodeMap[n] == r && r.Incarnation == s.Incarnation && r.State == StateSuspect && has(m.nodeTimers, n) && $ev == old($ev)
 //@                  && $bq == snoc(old($bq), Bq(n, suspectMsg, s.Incarnation, n, s.From, 0))
 //@   at call suspicionTimeout: assert susp-from-config [C03,C06]: suspicionMult == m.config.SuspicionMult && interval == m.config.ProbeInterval     // the bound is the configured one, not scaled by the observer's own health
+//@   at call newSuspicion: setbefore $armedAt := state.StateChange
+//@   at call newSuspicion: later fn          // the timer callback (C06 stale-timer guard, C03 failure wiring)
+//@   at call (*sync.RWMutex).Unlock: setbefore $seenHas := has(m.nodeMap, s.Node)
+//@   at call (*sync.RWMutex).Unlock: setbefore $seenState := m.nodeMap[s.Node].State
+//@   at call (*sync.RWMutex).Unlock: setbefore $seenChange := m.nodeMap[s.Node].StateChange
+//@   at call (*sync.RWMutex).Unlock: setbefore $seenInc := m.nodeMap[s.Node].Incarnation
+//@   at call (*sync.RWMutex).Unlock: setbefore $seenName := m.nodeMap[s.Node].Name
+//@   at call (*Memberlist).deadNode: assert stale-guard [C03,C06]: $seenHas && $seenState == StateSuspect && $seenChange == $armedAt     // only the suspicion this timer was armed for, and only while it still stands
+//@   at call (*Memberlist).deadNode: assert claim [C03,C06]: d.Incarnation == $seenInc && d.Node == $seenName && d.From == m.config.Name     // built from what was read under the lock, in the node's own name
 //@   at call newSuspicion: assert susp-params [C03,C06]: from == s.From && max == m.config.SuspicionMaxTimeoutMult * min
 //@                  && (k == m.config.SuspicionMult - 2 || k == 0) && (k == 0 ==> m.config.SuspicionMult - 2 <= 0 || m.numNodes - 2 < m.config.SuspicionMult - 2)
 //@                  && (k != 0 ==> k == m.config.SuspicionMult - 2 && m.numNodes - 2 >= k)
@@ -1068,14 +1083,8 @@ package memberlist
 //@   safety [C11,C16]
 //@   ensures oh [C11,C16]: result == ite(label == "", 0, 2 + len(label))
 
-// the suspicion timer callback (C06 stale-timer guard, C03 failure wiring): the death claim is built and
-// validated under the lock, for the suspicion this timer belongs to
-//@ func (*Memberlist).suspectNode$1(numConfirmations)
-//@   safety [C06,C13]
-//@   monitor Memberlist.nodeLock
-//@   requires ok: mlOK(m) && s != nil
-//@   at call (*Memberlist).deadNode: assert stale-guard [C03,C06]: old(has(m.nodeMap, s.Node)) && state == old(m.nodeMap[s.Node]) && old(state.State) == StateSuspect && old(state.StateChange) == changeTime
-//@   at call (*Memberlist).deadNode: assert claim [C03,C06]: d.Incarnation == old(state.Incarnation) && d.Node == old(state.Name) && d.From == m.config.Name
+// (the suspicion timer callback is checked where it is created: suspectNode's `later fn` clause runs it from a state that
+// other goroutines have moved on, with the values it really captured)
 
 // ---------------------------------------------------------------------
 // C19: acknowledgement correlation, relay, awareness
